@@ -115,7 +115,8 @@ class Filter:
 
         For each filter attribute that is set, a SQL condition and appropriate
         parameters to match the placeholders in the condition is generated. The
-        conditions are combined with AND logic.
+        conditions are combined with AND logic. If no filter attribute is set,
+        an empty condition string and an empty parameter list are returned.
         """
 
         # Prefix table name to column names if given.
@@ -156,6 +157,10 @@ class Filter:
         conditions += self._country_condition(table)
         conditions += self._continent_condition(table)
         conditions += self._bounding_box_condition(table)
+
+        # A filter with no conditions selects everything.
+        if not conditions:
+            return '', []
 
         conds, params = list(zip(*conditions))
         return (
